@@ -9,7 +9,7 @@ from ..ast import bind, leaves_of, show, C, L
 ID = "C04"
 RULE = ("Mode G: every connective formula (All Any AtLeast(k>=1) AtMost Xor XNor Imply Not; with the explicitly signed AtLeast forms in "
         "the 's' families) of nesting depth <=2 with <=2(3) arguments over boolean leaves, plus the negation closure Not(X), Imply(X,z), "
-        "Imply(z,X), XNor(X,z) of every depth-2 X, each built four ways (constructors over puan.variable, constructors over str ids, AtLeast/AtMost fed with one-shot iterators of str ids, "
+        "Imply(z,X), XNor(X,z) of every depth-2 X, each built four ways (every third one a fifth way: leaves as instances of a user-defined SUBCLASS of puan.variable) (constructors over puan.variable, constructors over str ids, AtLeast/AtMost fed with one-shot iterators of str ids, "
         "plog.from_json of an independently written JSON document incl. no-type / 'Proposition' / 'Variable' forms, parsed twice from one dictionary object), plus every rule "
         "dictionary of the cicJE grammar; x all 0/1 assignments. oracle = boolean connective semantics written directly on booleans; "
         "non-trivial = distinct formula with a non-constant truth table")
@@ -160,7 +160,7 @@ def check_formula(f, acc, fam, k, only_way=None):
     leaves = leaves_of(f)
     ids = list(leaves)
     expect = [ref.connective(f, dict(zip(ids, vals))) for vals in itertools.product((0, 1), repeat=len(ids))]
-    ways = ["var", "str"] + (["iter"] if has_counting(f) else []) + ([] if has_signed(f) else ["json"])
+    ways = ["var", "str"] + (["iter"] if has_counting(f) else []) + ([] if has_signed(f) else ["json"]) + (["sub"] if k % 3 == 1 else [])
     counted = False
     for way in ways:
         if only_way is not None and way != only_way:
@@ -180,7 +180,7 @@ def check_formula(f, acc, fam, k, only_way=None):
                 if k % 2 == 1:
                     obj = again
             else:
-                obj, _ = bind(f, leaf_as_str=(way in ("str", "iter")), as_iter=(way == "iter"))
+                obj, _ = bind(f, leaf_as_str=(way in ("str", "iter")), as_iter=(way == "iter"), leaf_subclass=(way == "sub"))
             acc.n("transitions")
             if not hasattr(obj, "errors"):
                 # Imply without condition etc. can legally collapse to a variable; not in this space
